@@ -366,6 +366,11 @@ impl<'a> Gen<'a> {
             let value = self.apieces(false, true);
             e.attrs.push(Attr { prefix, local, value });
         }
+        // xml:lang declarations, nested and shadowing (what lang() and inheritance of the language depend on)
+        if self.cfg.namespaces && self.r.chance(1, 6) && !e.attrs.iter().any(|a| a.local == "lang") {
+            let v = self.r.pick_s(&["en", "en-US", "de", "", "EN", "fr-CA", "e"]).to_string();
+            e.attrs.push(Attr { prefix: Some("xml".to_string()), local: "lang".to_string(), value: if v.is_empty() { vec![] } else { vec![APiece::Text(v)] } });
+        }
         // children
         if depth < self.cfg.max_depth {
             let nc = self.r.below(self.cfg.max_children + 1);
